@@ -198,6 +198,16 @@ class Kinds:
             if isinstance(r, FuncInfo):
                 t = self.g.types.ann(r.module, r.cls, r.node.returns)
                 return self._ty_kinds(t)
+            if r is None and isinstance(e.func, ast.Name):
+                # a local bound to an instance of a class of the package that defines __call__ (a callable object in place of
+                # a closure): what a call yields is what `__call__` is declared to return
+                for st in walk_no_nested(fn.node):
+                    if isinstance(st, (ast.Assign, ast.AnnAssign)) and st.value is not None and isinstance(st.value, ast.Call) and any(isinstance(t_, ast.Name) and t_.id == e.func.id for t_ in (st.targets if isinstance(st, ast.Assign) else [st.target])):
+                        k_ = self.repo.resolve_expr(fn.module, st.value.func, fn.cls)
+                        if isinstance(k_, ClassInfo):
+                            m_ = self.repo.lookup_method(k_, "__call__")
+                            if m_ is not None:
+                                return self._ty_kinds(self.g.types.ann(m_.module, m_.cls, m_.node.returns))
             return {"?"}
         if isinstance(e, ast.Attribute):
             if e.attr in ("numerator", "denominator"):
